@@ -67,7 +67,7 @@ void finish_op(World& W, int wi)
     }
     if (s.kind == SKind::MacroStatic || s.kind == SKind::MacroDynamic) { if (s.evaluated) x.has_logged = true; }
     else x.has_logged = true;
-    if (!s.accepted && !s.threw && (s.kind == SKind::Normal || is_bt_kind(s.kind) || s.kind == SKind::Named || s.kind == SKind::Dynamic)) ++x.drops_unreported;
+    if (!s.accepted && !s.threw && (s.kind == SKind::Normal || is_bt_kind(s.kind) || s.kind == SKind::Named || s.kind == SKind::Dynamic || s.kind == SKind::RuntimeMeta)) ++x.drops_unreported;
     if (s.immediate && s.accepted)
     {
       // log_statement<immediate_flush> called flush_log() after the enqueue: when it returns, this statement and everything
@@ -330,10 +330,11 @@ void op_log(World& W, int wi, bool in_burst, int ypoint, int logger_override = -
   {
     // every other property: a tenth of the statements carry named arguments, a tenth a run-time level (the backend keeps
     // both in per-slot state of the transit buffer, which is reused, moved on expansion and cleared per statement)
-    switch (c.weighted({8, 1, 1}))
+    switch (c.weighted({8, 1, 1, 1}))
     {
     case 1: s.kind = SKind::Named; break;
     case 2: s.kind = SKind::Dynamic; break;
+    case 3: s.kind = SKind::RuntimeMeta; break; // LOG_RUNTIME_METADATA: an ordinary statement with its own event type
     default: break;
     }
   }
@@ -358,7 +359,10 @@ void op_log(World& W, int wi, bool in_burst, int ypoint, int logger_override = -
     s.padlen = s.padlen > 32 ? s.padlen - 32 : 0;
   }
   if (s.kind == SKind::Dynamic && s.padlen > 0) --s.padlen; // the run-time level travels as one more byte: keep the drawn total
-  s.encoded = kStmtFixed + s.padlen + (s.kind == SKind::Bomb ? 32 : 0) + (s.kind == SKind::Dynamic ? 1 : 0);
+  // runtime metadata: "rt.cpp" (7 B as a C string), line (4 B), "fn" (3 B) and the run-time level (1 B) travel as well
+  constexpr uint32_t kRtExtra = 7 + 4 + 3 + 1;
+  if (s.kind == SKind::RuntimeMeta) s.padlen = s.padlen > kRtExtra ? s.padlen - kRtExtra : 0;
+  s.encoded = kStmtFixed + s.padlen + (s.kind == SKind::Bomb ? 32 : 0) + (s.kind == SKind::Dynamic ? 1 : 0) + (s.kind == SKind::RuntimeMeta ? kRtExtra : 0);
   s.issue_idx = W.op_counter;
   // C06 / C03: one statement in ten is logged with the immediate-flush flavour of the log call (QUILL_IMMEDIATE_FLUSH)
   if (s.kind == SKind::Normal && kind_override < 0 && (is_prop("C06") || is_prop("C03")) && c.pick(10) == 9)
@@ -403,6 +407,7 @@ void op_log(World& W, int wi, bool in_burst, int ypoint, int logger_override = -
     if (kind == SKind::Named) d += ",named";
     if (kind == SKind::NamedBtNoInit) d += ",named-bt-noinit";
     if (kind == SKind::Dynamic) d += ",dyn";
+    if (kind == SKind::RuntimeMeta) d += ",runtime-metadata";
     if (immediate) d += ",immediate-flush";
     if (is_macro) d += std::string{","} + (dynamic ? "dyn:" : "") + kLevelCodes[level];
     else if (is_prop("C18")) d += std::string{","} + kLevelCodes[level];
@@ -456,6 +461,17 @@ void op_log(World& W, int wi, bool in_burst, int ypoint, int logger_override = -
           }
           break;
         }
+        case SKind::RuntimeMeta:
+          if constexpr (kDropping)
+          {
+            char const* cpad = pad.c_str();
+            xp->res_accepted = lg->template log_statement<false, true>(static_cast<quill::LogLevel>(level), &kMdRuntime, wid, seq, cpad, "rt.cpp", 77, "fn");
+          }
+          else
+          {
+            xp->res_accepted = lg->template log_statement<false, true>(static_cast<quill::LogLevel>(level), &kMdRuntime, wid, seq, pad, "rt.cpp", 77, "fn");
+          }
+          break;
         case SKind::Dynamic:
           if constexpr (kDropping)
           {
